@@ -30,7 +30,9 @@ CONSTANTS Wal,         \* sequence of samples <<series, k>> in WAL order
           MaxRec, MaxFatal,   \* bounds on injected recoverable / non-recoverable send errors
           Timer,       \* TRUE: the BatchSendDeadline timer may fire at any time
           EmitMode,
-          Record       \* FALSE: no history variable (liveness checking without VIEW)
+          Record,      \* FALSE: no history variable (liveness checking without VIEW)
+          Eager        \* TRUE: an idle shard goroutine receives a published batch before anything else happens (what a
+                       \* replay can reproduce: the receive cannot be held back by a gate); FALSE: any interleaving
 
 VARIABLES wpos,      \* index in Wal of the sample the watcher is trying to enqueue
           n,         \* current number of shards
@@ -185,10 +187,13 @@ Start ==
      /\ UNCHANGED <<wpos, locked, received, lostFatal, nrec, nfatal>>
      /\ Log([a |-> "Start", n |-> m])
 
-Next == \/ Enqueue
-        \/ \E q \in Cur : Dequeue(q) \/ TimerFlush(q) \/ ShardExit(q) \/ FlushRetry(q)
-                          \/ \E res \in {"ok", "rec", "fatal"} : Send(q, res)
-        \/ StopSoft \/ StopFlush \/ StopDone \/ Start
+DeqEnabled(q) == alive[q] /\ infl[q] = <<>> /\ chan[q] # <<>>
+Other == \/ Enqueue
+         \/ \E q \in Cur : TimerFlush(q) \/ ShardExit(q) \/ FlushRetry(q)
+                           \/ \E res \in {"ok", "rec", "fatal"} : Send(q, res)
+         \/ StopSoft \/ StopFlush \/ StopDone \/ Start
+Next == \/ \E q \in Cur : Dequeue(q)
+        \/ (~Eager \/ ~\E q \in Cur : DeqEnabled(q)) /\ Other
 Spec == Init /\ [][Next]_vars
 FairSpec == Spec /\ WF_vars(Next)
 
